@@ -327,6 +327,18 @@ func c14Schemas(thorough bool) (*SPkg, []*Schema) {
 		t.p.Defs = append(t.p.Defs, &SDef{Name: "SvcArgsRequest", Type: "message", Pkg: t.p, Fields: []SField{{Name: "z", Tag: 1, Kind: "bool"}}})
 		return nil
 	})
+	mut("user message in ANOTHER FILE named like a generated request message", "SvcArgsRequest", "reject", func(t *c14tmpl) []*SPkg {
+		t.svc.Methods = append(t.svc.Methods, SMethod{"args", "(q string 1) (r string 1)"})
+		t.p.Defs = append(t.p.Defs, &SDef{Name: "SvcArgsRequest", Type: "message", Pkg: t.p, File: 1, Fields: []SField{{Name: "z", Tag: 1, Kind: "bool"}}})
+		t.p.Files = 2
+		return nil
+	})
+	mut("user message in ANOTHER FILE named like a generated response message", "SvcArgsResponse", "reject", func(t *c14tmpl) []*SPkg {
+		t.svc.Methods = append(t.svc.Methods, SMethod{"args", "(q string 1) (r string 1)"})
+		t.p.Defs = append(t.p.Defs, &SDef{Name: "SvcArgsResponse", Type: "message", Pkg: t.p, File: 1, Fields: []SField{{Name: "z", Tag: 1, Kind: "bool"}}})
+		t.p.Files = 2
+		return nil
+	})
 	mut("user message named like a generated client type", "", "either", func(t *c14tmpl) []*SPkg {
 		t.p.Defs = append(t.p.Defs, &SDef{Name: "SvcClient", Type: "message", Pkg: t.p, Fields: []SField{{Name: "z", Tag: 1, Kind: "bool"}}})
 		return nil
